@@ -19,10 +19,12 @@ reg(Prop('C15', [
         'decode_written_one / decode_written: the emitted bytes decode, by an independent opcode->layout table, to exactly the built operations in their documented normal forms (lit/reg/breg short forms, dup/over, DW_OP vs DW_OP_GNU by version, v2 implicit_pointer size, deref sizes, unit offsets of typed references)',
         'branches_land / branch_write_exact: every skip/bra displacement + offset after the 3-byte op = start offset of the target operation (or the end); |disp| >= 2^15 is Err ValueTooLarge, never a wrapped displacement',
         'entry_offset_exact / refs_need_offset / ref_fixup / fixup_resolved: typed ops, call, parameter_ref embed the unit offset and fail with UnsupportedExpressionForwardReference / UnsupportedCfiExpressionReference without it; call_ref / variable_value / implicit_pointer push one fix-up at the placeholder, which apply_fixups resolves to the target .debug_info offset',
+        'table_agrees_with_reader / decode_written_by_reader / branches_land_reader (composition with the C07 reader model OpDec): the independent opcode table and parse_op agree on every opcode and operand string; OperationIter over the written bytes yields the built operations in normal form; OpEval.compute_pc after each written skip/bra returns the suffix starting at the intended operation',
+        'eval_layout_independent / eval_same / reader_output_wf (composition with the C07 evaluator model OpEval): the evaluator conversation (requests, pieces, value, counters, errors) depends only on the operation sequence, not on its layout; running it on the written bytes = running it on the canonical StackSpec.enc_op re-encoding with re-aimed branches, whenever that re-encoding exists (re-computed displacements fit i16)',
         'no_panic (+ unset_target_panics): Expression::size / write never panic on Rust-typed operands with existing branch targets and in-table entries, both build modes: no overflow, no index error, the three debug_assert_eq! hold; a target index outside the expression panics',
     ],
     explored_only=[
-        'evaluation of written bytes = evaluation of the built operations (eval_same): needs the evaluator model of C07; covered indirectly by decode_written + the harness oracle',
+        'eval_same is relative to the operations the READER sees in the written bytes (normal forms); that these are the operations as built is decode_written; a direct semantics of write::Operation values (without going through bytes) is not modelled',
         'the unit layout around the expression (DIE offsets, abbreviation codes, list headers, CIE/FDE framing) is computed by glue in ocaml/s_c15.ml for small fixed unit shapes and checked by the sharp comparison and by reading everything back with gimli\'s reader',
         'real stack depth of the recursion per entry_value nesting level (known finding, stream c15.nest)',
         'writers with symbol support (relocating writers): the model is the default Writer over EndianVec, where symbols are errors (C18 covers relocation)',
@@ -33,11 +35,13 @@ reg(Prop('C15', [
                'prefixes); the emitted bytes decode by an independent opcode table to the built operations up to the documented shorter '
                'encodings; every branch lands on the start of its target operation; entry references carry the unit offset of the intended '
                'entry or fail with the specific error, section references are fix-ups resolved to the target offset; size/write cannot panic '
-               'under stated input conditions. The model is tied to the Rust on every run by ~42k cases (quick) where the model bytes and the '
+               'under stated input conditions; composed with the C07 reader/evaluator models: the reader decodes the written bytes to the built '
+               'operations, compute_pc lands every written branch on its target, and evaluation of the written bytes equals evaluation of '
+               'the canonical re-encoding. The model is tied to the Rust on every run by ~42k cases (quick) where the model bytes and the '
                'table decode are compared with gimli\'s bytes and gimli\'s own reader, in a DIE attribute, a location list and a CFI '
                'instruction, and where the harness independently checks built-vs-decoded operations, branch landing, reference resolution '
                '(by reading the units back) and length prefixes.',
     level_note='Trusted: Coq kernel; the hand-written model (tied by differential execution only); OCaml glue that predicts where gimli lays '
-               'out the small test units; the Rust harness. usize = u64. Evaluation equality (eval_same) is not a theorem here. Known finding: '
+               'out the small test units; the Rust harness. usize = u64. eval_same assumes the branch displacements of the canonical re-encoding fit i16. Known finding: '
                'stack exhaustion for deeply nested entry_value (recursion per nesting level).',
 ))
